@@ -46,6 +46,8 @@ def decode_strict(raw):
     silently stopped there)"""
     out = b""
     while raw:
+        if not b"\x1f\x8b\x08".startswith(raw[:3]):   # a member starts with 1f 8b 08; a shorter tail must be a prefix of it
+            return out, "corrupt"
         d = zlib.decompressobj(16 + zlib.MAX_WBITS)
         try:
             part = d.decompress(raw)
@@ -56,6 +58,26 @@ def decode_strict(raw):
         out += part
         raw = d.unused_data
     return out, "ok"
+
+
+def decoder_selftest():
+    """pins the three answers of decode_strict on crafted files; returns the list of wrong answers"""
+    m1, m2 = gzip.compress(b"m0|a\nm1|b\n"), gzip.compress(b"m2|c\n")
+    full, bad = m1 + m2, []
+    for n in range(len(full) + 1):
+        want = ("ok" if n in (0, len(m1), len(full)) else "torn", 0 if n < len(m1) else (15 if n == len(full) else 10))
+        got = decode_strict(full[:n])
+        if (got[1], len(got[0])) != want:
+            bad.append("prefix %d: %s/%d want %s/%d" % (n, got[1], len(got[0]), want[0], want[1]))
+    for tail in (b"x", b"# closed\n", b"\x00", b"\x1f\x8b\x07"):
+        got = decode_strict(full + tail)
+        if (got[1], len(got[0])) != ("corrupt", 15):
+            bad.append("garbage %r: %s/%d" % (tail, got[1], len(got[0])))
+    flipped = bytearray(full)
+    flipped[len(m1) - 8] ^= 0xFF
+    if decode_strict(bytes(flipped)) != (b"", "corrupt"):
+        bad.append("flipped checksum accepted")
+    return bad
 
 
 def decode_members(raw):
@@ -254,7 +276,7 @@ def run(ctx, rounds):
         if rc != 0:
             ctx.log("e2e: go build %s failed:\n%s" % (app, out[-1500:]))
             return ["e2e build of " + app]
-    broken = []
+    broken = ["e2e strict gzip decoder self-test: " + b for b in decoder_selftest()]
     summary = []
     for rnd in range(rounds):
         root = os.path.join(ctx.work, "e2e_%d" % rnd)
